@@ -73,6 +73,30 @@ static std::string mutate_value(FuzzedDataProvider &fdp, KW const &kw, bool &bou
   return others[fdp.ConsumeIntegralInRange<int>(0, 9)];
 }
 
+// atom-group definition of group1 of variable d: the template selection, or a boundary form of each selection keyword
+static std::string gen_group(FuzzedDataProvider &fdp, bool &boundary)
+{
+  static char const *ends[] = {"0", "-1", "1", "2", "5", "10", "12", "13", "2147483648", "99999999999", "abc", ""};
+  static char const *lists[] = {"", "0", "1 1", "1 2 2 1", "13", "-1", "3 2 1", "1 2 3 4 5 6 7 8 9 10 11 12", "2147483648", "1 x"};
+  static char const *opts[] = {"", " centerToReference on\n", " rotateToReference on\n", " centerToReference on\n rotateToReference on\n refPositions (0,0,0) (1,0,0)\n",
+                               " refPositions (0,0,0)\n centerToReference on\n", " enableFitGradients off\n", " fittingGroup { atomNumbers 4 5 6 }\n centerToReference on\n refPositions (0,0,0) (1,0,0) (0,1,0)\n",
+                               " centerToOrigin on\n", " refPositionsFile nosuch.xyz\n rotateToReference on\n"};
+  int form = fdp.ConsumeIntegralInRange<int>(0, 11);
+  if (form < 5) return " atomNumbers 1 2\n";
+  boundary = true;
+  std::string g;
+  switch (form) {
+  case 5: g = std::string(" atomNumbersRange ") + ends[fdp.ConsumeIntegralInRange<int>(0, 11)] + "-" + ends[fdp.ConsumeIntegralInRange<int>(0, 11)] + "\n"; break;
+  case 6: g = std::string(" atomNumbers ") + lists[fdp.ConsumeIntegralInRange<int>(0, 9)] + "\n"; break;
+  case 7: g = std::string(" atomNameResidueRange CA ") + ends[fdp.ConsumeIntegralInRange<int>(0, 11)] + "-" + ends[fdp.ConsumeIntegralInRange<int>(0, 11)] + "\n"; break;
+  case 8: g = " indexGroup nosuch\n"; break;
+  case 9: g = std::string(" atomNumbers 1 2\n atomNumbersRange ") + ends[fdp.ConsumeIntegralInRange<int>(0, 11)] + "-" + ends[fdp.ConsumeIntegralInRange<int>(0, 11)] + "\n"; break;
+  case 10: g = " atomsFile nosuch.pdb\n atomsCol O\n"; break;
+  default: g = std::string(" dummyAtom ") + (fdp.ConsumeBool() ? "(1, 2)" : "(1, 2, nan)") + "\n"; break;
+  }
+  return g + opts[fdp.ConsumeIntegralInRange<int>(0, 8)];
+}
+
 extern "C" int LLVMFuzzerTestOneInput(const uint8_t *data, size_t size)
 {
   static std::string dir;
@@ -115,7 +139,12 @@ extern "C" int LLVMFuzzerTestOneInput(const uint8_t *data, size_t size)
       if (mode == 1 && !essential) { out += std::string(" ") + kw.key + " " + kw.def + "\n"; continue; }   // template value
       out += std::string(" ") + kw.key + " " + mutate_value(fdp, kw, any_boundary) + "\n";
     }
-    out += t.body;
+    if (ti == 0) {
+      // the atom selection of group1 is generated last (it consumes from the input after the keywords of this object)
+      out += " distance {\n componentCoeff 1.0\n group1 {\n" + gen_group(fdp, any_boundary) + " }\n group2 { atomNumbers 3 }\n }\n";
+    } else {
+      out += t.body;
+    }
     out += t.tail;
   }
   conf += conf_cvs + conf_biases;
